@@ -65,16 +65,19 @@ Proof.
 Qed.
 
 (* ---- the configuration ---- *)
-Lemma sp_flows fixed r tbl f : In f (flows (sp_cfg fixed r tbl)) <-> In f (map fst tbl).
+Lemma sp_flows fixed r cm fl tbl f : In f (classes (sp_cfg fixed r cm fl tbl)) <-> In f (map fst tbl).
 Proof.
-  unfold flows, sp_cfg; cbn. rewrite map_map. cbn. rewrite !in_map_iff. split.
+  unfold classes, sp_cfg; cbn. rewrite map_map. cbn. rewrite !in_map_iff. split.
   - intros (x & <- & Hx). exists x. split; [reflexivity|]. apply sort_desc_in. exact Hx.
   - intros (x & <- & Hx). exists x. split; [reflexivity|]. apply sort_desc_in. exact Hx.
 Qed.
 
-Lemma sp_cfg_ok fixed r tbl : 0 < r -> (forall f p, In (f, p) tbl -> (0 < p)%Z) -> cfg_ok (sp_cfg fixed r tbl).
+Lemma sp_wf fixed r cm fl tbl : 0 < r -> wf (sp_cfg fixed r cm fl tbl).
+Proof. intros R. split; [exact R|]. cbn. discriminate. Qed.
+
+Lemma sp_cfg_ok fixed r cm fl tbl : 0 < r -> (forall f p, In (f, p) tbl -> (0 < p)%Z) -> cfg_ok (sp_cfg fixed r cm fl tbl).
 Proof.
-  intros R Pos. split; [exact R|]. intros f n Hin. unfold sp_cfg in Hin; cbn in Hin.
+  intros R Pos. split; [apply sp_wf; exact R|]. intros f n Hin. unfold sp_cfg in Hin; cbn in Hin.
   apply in_map_iff in Hin as ([f' p] & E & Hx). rewrite sort_desc_in in Hx. unfold sp_slot in E; cbn in E.
   injection E as <- <-. specialize (Pos _ _ Hx). apply Z.ltb_lt in Pos. rewrite Pos. lia.
 Qed.
@@ -99,7 +102,7 @@ Lemma brk_top c s : brk c = true -> reachable c s -> top_cursor c s.
 Proof.
   intros B. revert s. apply reachable_ind'; [exact I|].
   intros s a s' o Rs IH A. destruct a as [p| |[f|]|[f|]| | | |t|incl]; cbn in A.
-  - destruct (memZ (flow p) (flows c) && (0 <=? psize p)%Z); [|discriminate]. injection A as <- <-. exact IH.
+  - destruct (memZ (cls c (flow p)) (classes c) && (0 <=? psize p)%Z); [|discriminate]. injection A as <- <-. exact IH.
   - destruct (mpc s); try discriminate. eapply resume_brk; eauto.
   - destruct (sq_cb fifo_pop (mstores s f)); [|discriminate]. injection A as <- <-. exact IH.
   - destruct (sq_cb fifo_pop (mtok s)); [|discriminate]. injection A as <- <-. exact IH.
@@ -156,9 +159,9 @@ Definition higher (tbl : list (Z * Z)) (f g : Z) : Prop :=
   exists pf pg, In (f, pf) tbl /\ In (g, pg) tbl /\ (pf < pg)%Z.
 
 (* the scan of the whole pass that finds f found every class of higher priority empty *)
-Lemma sp_scan_strict r tbl s vs f rem' g :
+Lemma sp_scan_strict r cm fl tbl s vs f rem' g :
   NoDup (map fst tbl) ->
-  scan (nonempty (sp_cfg true r tbl) s) (pass (sp_cfg true r tbl)) = (vs, Some (f, rem')) ->
+  scan (nonempty (sp_cfg true r cm fl tbl) s) (pass (sp_cfg true r cm fl tbl)) = (vs, Some (f, rem')) ->
   higher tbl f g -> items (mstores s g) = [] /\ g <> f.
 Proof.
   intros ND Sc (pf & pg & Hf & Hg & Lt).
@@ -182,19 +185,19 @@ Proof.
 Qed.
 
 (* C13, at the commit: whenever run() takes a packet of flow f, no class of higher priority holds a packet *)
-Theorem sp_strict_commit r tbl s a s' o f g :
-  0 < r -> NoDup (map fst tbl) -> reachable (sp_cfg true r tbl) s -> sp_act r tbl s a = Some (s', o) ->
+Theorem sp_strict_commit r cm fl tbl s a s' o f g :
+  0 < r -> NoDup (map fst tbl) -> reachable (sp_cfg true r cm fl tbl) s -> sp_act r cm fl tbl s a = Some (s', o) ->
   In (OVisit f true) o -> higher tbl f g ->
   sq_held (mstores s' g) = [] /\ items (mstores s g) = [] /\ (exists rem, mpc s' = PGet f rem) /\ mnow s' = mnow s.
 Proof.
-  intros R ND Rs A Hin Hi. set (c := sp_cfg true r tbl) in *. unfold sp_act in A. fold c in A.
-  destruct (reachable_inv c s R Rs) as (ins & outs & Iv).
+  intros R ND Rs A Hin Hi. set (c := sp_cfg true r cm fl tbl) in *. unfold sp_act in A. fold c in A.
+  destruct (reachable_inv c s (sp_wf true r cm fl tbl R) Rs) as (ins & outs & Iv).
   destruct (runs_loop a) eqn:Ra; [|exfalso; eapply (other_site c s a s' o A Ra); exact Hin].
   destruct (resume_site c ins outs s a s' o Iv A Ra) as (s0 & C0 & M0 & Rsm & Est & Enow & _).
   assert (Hc : cursor c s = [] \/ cursor c s = pass c).
   { pose proof (brk_top c s eq_refl Rs) as T. unfold top_cursor in T. unfold cursor. destruct (mpc s); auto. }
   destruct (resume_from_top c s0 _ s' o f Hc Rsm (or_introl Hin)) as (vs & rem' & Sc & Cm).
-  destruct (sp_scan_strict r tbl s0 vs f rem' g ND Sc Hi) as [Eg Ng].
+  destruct (sp_scan_strict r cm fl tbl s0 vs f rem' g ND Sc Hi) as [Eg Ng].
   assert (NE : items (mstores s0 f) <> []).
   { apply scan_some in Sc as (T & _). unfold nonempty in T; cbn in T. destruct (items (mstores s0 f)); [discriminate|discriminate]. }
   destruct (commit_inv c ins outs s0 f _ s' C0 M0 NE Cm) as (_ & Pc & Hit & Hn).
@@ -204,18 +207,18 @@ Proof.
 Qed.
 
 (* ---- from the commit to the start of the timer: same instant; what a higher class holds then arrived meanwhile ---- *)
-Definition fresh_above (tbl : list (Z * Z)) (s : mq) : Prop :=
-  forall f g, committed s f -> higher tbl f g -> Forall (fun x => fst x = mnow s) (sq_held (mstores s g)).
+Definition fresh_above (c : mq_cfg) (tbl : list (Z * Z)) (s : mq) : Prop :=
+  forall f g, committed c s f -> higher tbl f g -> Forall (fun x => fst x = mnow s) (sq_held (mstores s g)).
 
 Lemma resume_pc_visit c s rem s' o f rem1 : resume c s rem = Some (s', o) -> mpc s' = PGet f rem1 -> mchild s' = mchild s.
 Proof. intros H _. eapply resume_child; eauto. Qed.
 
-Lemma sp_fresh_above r tbl s :
-  0 < r -> NoDup (map fst tbl) -> reachable (sp_cfg true r tbl) s -> fresh_above tbl s.
+Lemma sp_fresh_above r cm fl tbl s :
+  0 < r -> NoDup (map fst tbl) -> reachable (sp_cfg true r cm fl tbl) s -> fresh_above (sp_cfg true r cm fl tbl) tbl s.
 Proof.
-  intros R ND. remember (sp_cfg true r tbl) as c eqn:Ec.
+  intros R ND. remember (sp_cfg true r cm fl tbl) as c eqn:Ec.
   assert (Bk : brk c = true) by (subst c; reflexivity).
-  assert (Rc : 0 < rate c) by (subst c; exact R).
+  assert (Rc : wf c) by (subst c; apply sp_wf; exact R).
   assert (Scs : forall s vs f rem' g, scan (nonempty c s) (pass c) = (vs, Some (f, rem')) -> higher tbl f g ->
                  items (mstores s g) = [] /\ g <> f).
   { subst c. intros. eapply sp_scan_strict; eauto. }
@@ -235,12 +238,12 @@ Proof.
         cbn. rewrite upd_other by exact Ng. unfold sq_held. rewrite (m_getf _ M0 g), Eg. constructor.
       * rewrite (resume_child _ _ _ _ _ Rsm), (m_child _ M0) in Ch. discriminate.
     + destruct a as [p| |[f0|]|[f0|]| | | |t|incl]; try discriminate; cbn in A.
-      * destruct (memZ (flow p) (flows c) && (0 <=? psize p)%Z); [|discriminate]. injection A as <- <-.
+      * destruct (memZ (cls c (flow p)) (classes c) && (0 <=? psize p)%Z); [|discriminate]. injection A as <- <-.
         intros f g Cm Hi. specialize (IH f g Cm Hi). cbn. unfold upd.
-        destruct (Z.eqb_spec g (flow p)) as [->|N]; [|exact IH].
+        destruct (Z.eqb_spec g (cls c (flow p))) as [->|N]; [|exact IH].
         rewrite fifo_held_put. apply Forall_app. split; [exact IH|]. constructor; [reflexivity|constructor].
       * destruct (sq_cb fifo_pop (mstores s f0)) as [q|] eqn:G; [|discriminate]. injection A as <- <-.
-        intros f g Cm Hi. assert (Cm0 : committed s f) by exact Cm. specialize (IH f g Cm0 Hi). cbn. unfold upd.
+        intros f g Cm Hi. assert (Cm0 : committed c s f) by exact Cm. specialize (IH f g Cm0 Hi). cbn. unfold upd.
         destruct (Z.eqb_spec g f0) as [->|N]; [|exact IH]. rewrite (fifo_held_cb _ _ _ G). exact IH.
       * destruct (sq_cb fifo_pop (mtok s)) as [q|]; [|discriminate]. injection A as <- <-.
         intros f g Cm Hi. exact (IH f g Cm Hi).
@@ -248,10 +251,10 @@ Proof.
         destruct (Z.eqb_spec f0 g0) as [<-|N]; [|discriminate].
         destruct (sq_take (mstores s f0)) as [[[a p] q]|] eqn:T; [|discriminate]. injection A as <- <-.
         pose proof (fifo_held_take _ _ _ _ T) as Hh.
-        assert (Fp : flow p = f0).
-        { apply (held_in_ins c ins outs s f0 p C). unfold held_flow. apply in_or_app. right. rewrite Hh. left. reflexivity. }
+        assert (Fp : cls c (flow p) = f0).
+        { apply (held_in_ins c ins outs s f0 p C). unfold held_class. apply in_or_app. right. rewrite Hh. left. reflexivity. }
         intros f g Cm Hi. destruct Cm as [(rem' & E)|(p' & E & Fp')]; [discriminate|]. cbn in E. injection E as <-.
-        assert (Cm0 : committed s f) by (left; exists rem; congruence).
+        assert (Cm0 : committed c s f) by (left; exists rem; congruence).
         specialize (IH f g Cm0 Hi). cbn. unfold upd.
         destruct (Z.eqb_spec g f0) as [->|Ng]; [|exact IH]. rewrite Hh in IH. inversion IH; assumption.
       * destruct (mchild s) eqn:Ch; try discriminate. injection A as <- <-.
@@ -271,11 +274,11 @@ Proof.
         intros f g Cm Hi. exfalso. unfold committed in Cm. rewrite Epc, Ech in Cm.
         destruct Cm as [(rem & P)|(p & Ch & _)].
         -- destruct (i_pget _ Sh f rem P) as (x & Gx).
-           assert (Hf : In f (flows c)).
+           assert (Hf : In f (classes c)).
            { destruct (held_in_ins c ins outs s f (snd x) C) as [Fx Hin].
-             - unfold held_flow. apply in_or_app. right. unfold sq_held. rewrite Gx. left. reflexivity.
+             - unfold held_class. apply in_or_app. right. unfold sq_held. rewrite Gx. left. reflexivity.
              - rewrite <- Fx. apply (i_ins _ _ _ _ C _ Hin). }
-           assert (Ex : existsb (fun f0 => sq_urgent (mstores s f0)) (flows c) = true).
+           assert (Ex : existsb (fun f0 => sq_urgent (mstores s f0)) (classes c) = true).
            { apply existsb_exists. exists f. split; [exact Hf|]. unfold sq_urgent. rewrite Gx. apply orb_true_r. }
            congruence.
         -- unfold child_urgent in Uch. rewrite Ch in Uch. discriminate.
@@ -284,11 +287,11 @@ Qed.
 
 (* C13, at the start of the transmission timer: the commit was made at this very instant, and a packet of a higher
    class that is present now was put at this instant (after the commit) *)
-Theorem sp_strict_at_start r tbl s s' o p g :
-  0 < r -> NoDup (map fst tbl) -> reachable (sp_cfg true r tbl) s -> sp_act r tbl s SChildInit = Some (s', o) ->
-  In (OStart p) o -> higher tbl (flow p) g -> Forall (fun x => fst x = mnow s) (sq_held (mstores s g)).
+Theorem sp_strict_at_start r cm fl tbl s s' o p g :
+  0 < r -> NoDup (map fst tbl) -> reachable (sp_cfg true r cm fl tbl) s -> sp_act r cm fl tbl s SChildInit = Some (s', o) ->
+  In (OStart p) o -> higher tbl (cm (flow p)) g -> Forall (fun x => fst x = mnow s) (sq_held (mstores s g)).
 Proof.
-  intros R ND Rs A Hin Hi. apply (sp_fresh_above r tbl s R ND Rs (flow p) g); [|exact Hi].
+  intros R ND Rs A Hin Hi. apply (sp_fresh_above r cm fl tbl s R ND Rs (cm (flow p)) g); [|exact Hi].
   right. unfold sp_act in A. cbn in A. destruct (mchild s) as [|p0| |]; try discriminate. injection A as <- <-.
   destruct Hin as [E|[]]. injection E as ->. eauto.
 Qed.
@@ -300,15 +303,15 @@ Definition sp_w1 : list saction :=
    SGetDone (Some 1%Z); SChildInit; SAdvance 1; SChildTimer].
 
 Theorem sp_strict_refuted_unfixed :
-  exists r tbl acts s tr a s' o f g,
+  exists r cm fl tbl acts s tr a s' o f g,
     0 < r /\ NoDup (map fst tbl) /\ (forall f p, In (f, p) tbl -> (0 < p)%Z) /\
-    sp_run_unfixed r tbl acts = Some (s, tr) /\ mq_act (sp_cfg false r tbl) s a = Some (s', o) /\
+    sp_run_unfixed r cm fl tbl acts = Some (s, tr) /\ mq_act (sp_cfg false r cm fl tbl) s a = Some (s', o) /\
     In (OVisit f true) o /\ higher tbl f g /\ items (mstores s g) <> [].
 Proof.
-  exists (1024 # 1), [(0, 1); (1, 2)]%Z, sp_w1.
-  destruct (sp_run_unfixed (1024 # 1) [(0, 1); (1, 2)]%Z sp_w1) as [[s tr]|] eqn:E; [|vm_compute in E; discriminate].
+  exists (1024 # 1), (fun f => f), [0; 1]%Z, [(0, 1); (1, 2)]%Z, sp_w1.
+  destruct (sp_run_unfixed (1024 # 1) (fun f => f) [0; 1]%Z [(0, 1); (1, 2)]%Z sp_w1) as [[s tr]|] eqn:E; [|vm_compute in E; discriminate].
   exists s, tr, SChildEnd.
-  destruct (mq_act (sp_cfg false (1024 # 1) [(0, 1); (1, 2)]%Z) s SChildEnd) as [[s' o]|] eqn:A.
+  destruct (mq_act (sp_cfg false (1024 # 1) (fun f => f) [0; 1]%Z [(0, 1); (1, 2)]%Z) s SChildEnd) as [[s' o]|] eqn:A.
   - exists s', o, 0%Z, 1%Z. split; [reflexivity|]. split; [repeat constructor; cbn; intuition discriminate|].
     split; [intros f p [H|[H|[]]]; injection H as <- <-; lia|]. split; [reflexivity|]. split; [reflexivity|].
     vm_compute in E. injection E as <- <-. vm_compute in A. injection A as <- <-.
@@ -318,150 +321,151 @@ Qed.
 
 (* the repaired loop on the same execution: the higher class is drained first *)
 Example sp_fixed_on_witness :
-  match sp_run (1024 # 1) [(0, 1); (1, 2)]%Z (sp_w1 ++ [SChildEnd]) with
+  match sp_run (1024 # 1) (fun f => f) [0; 1]%Z [(0, 1); (1, 2)]%Z (sp_w1 ++ [SChildEnd]) with
   | Some (s, tr) => mpc s = PGet 1%Z [] /\ length (items (mstores s 0%Z)) = 2%nat
   | None => False
   end.
 Proof. vm_compute. split; reflexivity. Qed.
 
-Theorem sp_commit_same_instant r tbl s f t :
-  0 < r -> reachable (sp_cfg true r tbl) s -> committed s f -> sp_act r tbl s (SAdvance t) = None.
+Theorem sp_commit_same_instant r cm fl tbl s f t :
+  0 < r -> reachable (sp_cfg true r cm fl tbl) s -> committed (sp_cfg true r cm fl tbl) s f -> sp_act r cm fl tbl s (SAdvance t) = None.
 Proof.
-  intros R Rs Cm. unfold sp_act. cbn [mq_act]. rewrite (committed_urgent (sp_cfg true r tbl) s f R Rs Cm). reflexivity.
+  intros R Rs Cm. unfold sp_act. cbn [mq_act]. rewrite (committed_urgent (sp_cfg true r cm fl tbl) s f (sp_wf true r cm fl tbl R) Rs Cm). reflexivity.
 Qed.
 
-Theorem sp_non_preemptive r tbl acts s tr :
-  0 < r -> sp_run r tbl acts = Some (s, tr) -> tx_wf (sp_cfg true r tbl) None tr.
+Theorem sp_non_preemptive r cm fl tbl acts s tr :
+  0 < r -> sp_run r cm fl tbl acts = Some (s, tr) -> tx_wf (sp_cfg true r cm fl tbl) None tr.
 Proof.
-  intros R H. apply (tx_wf_run (sp_cfg true r tbl) R acts (mq0 _) [] [] s tr (inv0 _) H).
+  intros R H. apply (tx_wf_run (sp_cfg true r cm fl tbl) (sp_wf true r cm fl tbl R) acts (mq0 _) [] [] s tr (inv0 _) H).
 Qed.
 
 (* ---- the C13 statements for executions from the initial state ---- *)
-Theorem sp_strict_run r tbl acts s tr a s' o f g :
+Theorem sp_strict_run r cm fl tbl acts s tr a s' o f g :
   0 < r -> NoDup (map fst tbl) ->
-  sp_run r tbl acts = Some (s, tr) -> sp_act r tbl s a = Some (s', o) ->
+  sp_run r cm fl tbl acts = Some (s, tr) -> sp_act r cm fl tbl s a = Some (s', o) ->
   In (OVisit f true) o -> higher tbl f g ->
   sq_held (mstores s' g) = [] /\ items (mstores s g) = [] /\ (exists rem, mpc s' = PGet f rem) /\ mnow s' = mnow s.
 Proof. intros R ND H. apply sp_strict_commit; auto. exists acts, tr. exact H. Qed.
 
-Theorem sp_strict_at_start_run r tbl acts s tr s' o p g :
+Theorem sp_strict_at_start_run r cm fl tbl acts s tr s' o p g :
   0 < r -> NoDup (map fst tbl) ->
-  sp_run r tbl acts = Some (s, tr) -> sp_act r tbl s SChildInit = Some (s', o) ->
-  In (OStart p) o -> higher tbl (flow p) g -> Forall (fun x => fst x = mnow s) (sq_held (mstores s g)).
+  sp_run r cm fl tbl acts = Some (s, tr) -> sp_act r cm fl tbl s SChildInit = Some (s', o) ->
+  In (OStart p) o -> higher tbl (cm (flow p)) g -> Forall (fun x => fst x = mnow s) (sq_held (mstores s g)).
 Proof. intros R ND H. apply sp_strict_at_start; auto. exists acts, tr. exact H. Qed.
 
-Theorem sp_commit_same_instant_run r tbl acts s tr f t :
-  0 < r -> sp_run r tbl acts = Some (s, tr) -> committed s f -> sp_act r tbl s (SAdvance t) = None.
+Theorem sp_commit_same_instant_run r cm fl tbl acts s tr f t :
+  0 < r -> sp_run r cm fl tbl acts = Some (s, tr) -> committed (sp_cfg true r cm fl tbl) s f -> sp_act r cm fl tbl s (SAdvance t) = None.
 Proof. intros R H. apply sp_commit_same_instant; auto. exists acts, tr. exact H. Qed.
 
 (* ---- C12 / C08 for SP: the generic theorems instantiated ---- *)
-Lemma sp_work_conserving : forall (r : Q) (tbl : list (Z * Z)) acts s tr t x,
-  0 < r -> (forall f p, In (f, p) tbl -> (0 < p)%Z) ->
-  sp_run r tbl acts = Some (s, tr) -> sp_act r tbl s (SAdvance t) = Some x ->
-  (exists p dl, mchild s = CTx p dl /\ mcur s = Some p /\ mnow s < dl) \/ (forall f, held_flow s f = []).
-Proof. intros r tbl acts s tr t x R Pos H A. exact (work_conserving0 (sp_cfg true r tbl) acts s tr t x (sp_cfg_ok true r tbl R Pos) H A). Qed.
+Lemma sp_work_conserving : forall (r : Q) (cm : Z -> Z) (fl : list Z) (tbl : list (Z * Z)) acts s tr t x,
+  0 < r -> (forall k p, In (k, p) tbl -> (0 < p)%Z) ->
+  sp_run r cm fl tbl acts = Some (s, tr) -> sp_act r cm fl tbl s (SAdvance t) = Some x ->
+  (exists p dl, mchild s = CTx p dl /\ mcur s = Some p /\ mnow s < dl) \/ (forall k, held_class (sp_cfg true r cm fl tbl) s k = []).
+Proof. intros r cm fl tbl acts s tr t x R Pos H A. exact (work_conserving0 (sp_cfg true r cm fl tbl) acts s tr t x (sp_cfg_ok true r cm fl tbl R Pos) H A). Qed.
 
-Lemma sp_one_at_a_time_tx_time : forall (r : Q) (tbl : list (Z * Z)) acts s tr,
+Lemma sp_one_at_a_time_tx_time : forall (r : Q) (cm : Z -> Z) (fl : list Z) (tbl : list (Z * Z)) acts s tr,
   0 < r ->
-  sp_run r tbl acts = Some (s, tr) -> tx_wf (sp_cfg true r tbl) None tr.
-Proof. intros r tbl acts s tr R H. exact (tx_wf_run0 (sp_cfg true r tbl) acts s tr R H). Qed.
+  sp_run r cm fl tbl acts = Some (s, tr) -> tx_wf (sp_cfg true r cm fl tbl) None tr.
+Proof. intros r cm fl tbl acts s tr R H. exact (tx_wf_run0 (sp_cfg true r cm fl tbl) acts s tr (sp_wf true r cm fl tbl R) H). Qed.
 
-Lemma sp_back_to_back : forall (r : Q) (tbl : list (Z * Z)) acts1 s1 tr1 s2 o acts2 s3 tr2 t x,
-  0 < r -> (forall f p, In (f, p) tbl -> (0 < p)%Z) ->
-  sp_run r tbl acts1 = Some (s1, tr1) -> sp_act r tbl s1 SChildTimer = Some (s2, o) -> (exists f, held_flow s2 f <> []) ->
-  mq_run (sp_cfg true r tbl) s2 acts2 = Some (s3, tr2) -> (forall t', ~ In (SAdvance t') acts2) -> sp_act r tbl s3 (SAdvance t) = Some x ->
+Lemma sp_back_to_back : forall (r : Q) (cm : Z -> Z) (fl : list Z) (tbl : list (Z * Z)) acts1 s1 tr1 s2 o acts2 s3 tr2 t x,
+  0 < r -> (forall k p, In (k, p) tbl -> (0 < p)%Z) ->
+  sp_run r cm fl tbl acts1 = Some (s1, tr1) -> sp_act r cm fl tbl s1 SChildTimer = Some (s2, o) -> (exists k, held_class (sp_cfg true r cm fl tbl) s2 k <> []) ->
+  mq_run (sp_cfg true r cm fl tbl) s2 acts2 = Some (s3, tr2) -> (forall t', ~ In (SAdvance t') acts2) -> sp_act r cm fl tbl s3 (SAdvance t) = Some x ->
   exists e p, In e tr2 /\ In (OStart p) (snd e) /\ fst (fst e) = mnow s2.
-Proof. intros r tbl acts1 s1 tr1 s2 o acts2 s3 tr2 t x R Pos H1 A2 Hh H2 NA A3. exact (back_to_back (sp_cfg true r tbl) acts1 s1 tr1 s2 o acts2 s3 tr2 t x (sp_cfg_ok true r tbl R Pos) H1 A2 Hh H2 NA A3). Qed.
+Proof. intros r cm fl tbl acts1 s1 tr1 s2 o acts2 s3 tr2 t x R Pos H1 A2 Hh H2 NA A3. exact (back_to_back (sp_cfg true r cm fl tbl) acts1 s1 tr1 s2 o acts2 s3 tr2 t x (sp_cfg_ok true r cm fl tbl R Pos) H1 A2 Hh H2 NA A3). Qed.
 
-Lemma sp_flow_fifo : forall (r : Q) (tbl : list (Z * Z)) acts s tr f,
+Lemma sp_flow_fifo : forall (r : Q) (cm : Z -> Z) (fl : list Z) (tbl : list (Z * Z)) acts s tr f,
   0 < r ->
-  sp_run r tbl acts = Some (s, tr) ->
+  sp_run r cm fl tbl acts = Some (s, tr) ->
   exists rest, filter (is_flow f) (tr_puts tr) = filter (is_flow f) (tr_fwds tr) ++ rest.
-Proof. intros r tbl acts s tr f R H. exact (run_flow_fifo (sp_cfg true r tbl) acts s tr f R H). Qed.
+Proof. intros r cm fl tbl acts s tr f R H. exact (run_flow_fifo (sp_cfg true r cm fl tbl) acts s tr f (sp_wf true r cm fl tbl R) H). Qed.
 
-Lemma sp_exactly_once : forall (r : Q) (tbl : list (Z * Z)) acts s tr p,
+Lemma sp_exactly_once : forall (r : Q) (cm : Z -> Z) (fl : list Z) (tbl : list (Z * Z)) acts s tr p,
   0 < r ->
-  sp_run r tbl acts = Some (s, tr) ->
+  sp_run r cm fl tbl acts = Some (s, tr) ->
   count_occ pkt_eq_dec (tr_puts tr) p
-  = (count_occ pkt_eq_dec (tr_fwds tr) p + count_occ pkt_eq_dec (held_flow s (flow p)) p)%nat.
-Proof. intros r tbl acts s tr p R H. exact (run_exactly_once (sp_cfg true r tbl) acts s tr p R H). Qed.
+  = (count_occ pkt_eq_dec (tr_fwds tr) p + count_occ pkt_eq_dec (held_class (sp_cfg true r cm fl tbl) s (cm (flow p))) p)%nat.
+Proof. intros r cm fl tbl acts s tr p R H. exact (run_exactly_once (sp_cfg true r cm fl tbl) acts s tr p (sp_wf true r cm fl tbl R) H). Qed.
 
-Lemma sp_counters : forall (r : Q) (tbl : list (Z * Z)) acts s tr,
+Lemma sp_counters : forall (r : Q) (cm : Z -> Z) (fl : list Z) (tbl : list (Z * Z)) acts s tr,
   0 < r ->
-  sp_run r tbl acts = Some (s, tr) ->
-  (forall f, mqc s f = Z.of_nat (length (held_flow s f)) /\ mqb s f = sumsz (held_flow s f))
-  /\ mtotal s = zsum (fun f => Z.of_nat (length (held_flow s f))) (dflows (sp_cfg true r tbl))
+  sp_run r cm fl tbl acts = Some (s, tr) ->
+  (forall f, mqc s f = Z.of_nat (length (held_flow (sp_cfg true r cm fl tbl) s f)) /\ mqb s f = sumsz (held_flow (sp_cfg true r cm fl tbl) s f))
+  /\ mtotal s = zsum (fun k => Z.of_nat (length (held_class (sp_cfg true r cm fl tbl) s k))) (dclasses (sp_cfg true r cm fl tbl))
   /\ mcur s = match mchild s with CTx p _ => Some p | _ => None end
   /\ mrecv s = Z.of_nat (length (tr_puts tr)).
-Proof. intros r tbl acts s tr R H. exact (run_counters (sp_cfg true r tbl) acts s tr R H). Qed.
+Proof. intros r cm fl tbl acts s tr R H. exact (run_counters (sp_cfg true r cm fl tbl) acts s tr (sp_wf true r cm fl tbl R) H). Qed.
 
-Lemma sp_never_spins : forall (r : Q) (tbl : list (Z * Z)) acts s tr,
-  0 < r -> (forall f p, In (f, p) tbl -> (0 < p)%Z) ->
-  sp_run r tbl acts = Some (s, tr) -> mpc s <> PSpin.
-Proof. intros r tbl acts s tr R Pos H. exact (never_spins0 (sp_cfg true r tbl) acts s tr (sp_cfg_ok true r tbl R Pos) H). Qed.
+Lemma sp_never_spins : forall (r : Q) (cm : Z -> Z) (fl : list Z) (tbl : list (Z * Z)) acts s tr,
+  0 < r -> (forall k p, In (k, p) tbl -> (0 < p)%Z) ->
+  sp_run r cm fl tbl acts = Some (s, tr) -> mpc s <> PSpin.
+Proof. intros r cm fl tbl acts s tr R Pos H. exact (never_spins0 (sp_cfg true r cm fl tbl) acts s tr (sp_cfg_ok true r cm fl tbl R Pos) H). Qed.
 
-Lemma sp_monitor_samples : forall (r : Q) (tbl : list (Z * Z)) acts s tr incl,
+Lemma sp_monitor_samples : forall (r : Q) (cm : Z -> Z) (fl : list Z) (tbl : list (Z * Z)) acts s tr incl,
   0 < r ->
-  sp_run r tbl acts = Some (s, tr) ->
-  sp_act r tbl s (SSample incl) =
-    Some (s, [OSample (map (fun f => let l := if incl then held_flow s f else waiting_flow s f in
-                                     (f, Z.of_nat (length l), sumsz l)) (dflows (sp_cfg true r tbl)))]).
-Proof. intros r tbl acts s tr incl R H. exact (monitor_samples0 (sp_cfg true r tbl) acts s tr incl R H). Qed.
+  sp_run r cm fl tbl acts = Some (s, tr) ->
+  sp_act r cm fl tbl s (SSample incl) =
+    Some (s, [OSample (map (fun f => let l := if incl then held_flow (sp_cfg true r cm fl tbl) s f else waiting_flow (sp_cfg true r cm fl tbl) s f in
+                                     (f, Z.of_nat (length l), sumsz l)) (sflows (sp_cfg true r cm fl tbl)))]).
+Proof. intros r cm fl tbl acts s tr incl R H. exact (monitor_samples0 (sp_cfg true r cm fl tbl) acts s tr incl (sp_wf true r cm fl tbl R) H). Qed.
 
-Lemma sp_conserves : forall (r : Q) (tbl : list (Z * Z)) acts s tr,
+Lemma sp_conserves : forall (r : Q) (cm : Z -> Z) (fl : list Z) (tbl : list (Z * Z)) acts s tr,
   0 < r ->
-  sp_run r tbl acts = Some (s, tr) ->
-  (forall f, filter (is_flow f) (tr_puts tr) = filter (is_flow f) (tr_fwds tr) ++ held_flow s f)
-  /\ (forall p, In p (tr_puts tr) -> In (flow p) (flows (sp_cfg true r tbl))).
-Proof. intros r tbl acts s tr R H. exact (run_conserves (sp_cfg true r tbl) acts s tr R H). Qed.
+  sp_run r cm fl tbl acts = Some (s, tr) ->
+  (forall k, filter (is_class (sp_cfg true r cm fl tbl) k) (tr_puts tr) = filter (is_class (sp_cfg true r cm fl tbl) k) (tr_fwds tr) ++ held_class (sp_cfg true r cm fl tbl) s k)
+  /\ (forall f, filter (is_flow f) (tr_puts tr) = filter (is_flow f) (tr_fwds tr) ++ held_flow (sp_cfg true r cm fl tbl) s f)
+  /\ (forall p, In p (tr_puts tr) -> In (cm (flow p)) (classes (sp_cfg true r cm fl tbl))).
+Proof. intros r cm fl tbl acts s tr R H. exact (run_conserves (sp_cfg true r cm fl tbl) acts s tr (sp_wf true r cm fl tbl R) H). Qed.
 
-Lemma sp_drained : forall (r : Q) (tbl : list (Z * Z)) acts s tr,
-  0 < r -> (forall f p, In (f, p) tbl -> (0 < p)%Z) ->
-  sp_run r tbl acts = Some (s, tr) -> urgent (sp_cfg true r tbl) s = false -> (forall p dl, mchild s <> CTx p dl) ->
-  (forall f, held_flow s f = []) /\ (forall f, mqc s f = 0%Z /\ mqb s f = 0%Z) /\ mcur s = None /\
+Lemma sp_drained : forall (r : Q) (cm : Z -> Z) (fl : list Z) (tbl : list (Z * Z)) acts s tr,
+  0 < r -> (forall k p, In (k, p) tbl -> (0 < p)%Z) ->
+  sp_run r cm fl tbl acts = Some (s, tr) -> urgent (sp_cfg true r cm fl tbl) s = false -> (forall p dl, mchild s <> CTx p dl) ->
+  (forall k, held_class (sp_cfg true r cm fl tbl) s k = []) /\ (forall f, mqc s f = 0%Z /\ mqb s f = 0%Z) /\ mcur s = None /\
   (forall f, filter (is_flow f) (tr_puts tr) = filter (is_flow f) (tr_fwds tr)) /\ mpc s <> PSpin.
-Proof. intros r tbl acts s tr R Pos H U Nd. exact (drained0 (sp_cfg true r tbl) acts s tr (sp_cfg_ok true r tbl R Pos) H U Nd). Qed.
+Proof. intros r cm fl tbl acts s tr R Pos H U Nd. exact (drained0 (sp_cfg true r cm fl tbl) acts s tr (sp_cfg_ok true r cm fl tbl R Pos) H U Nd). Qed.
 
 (* non-vacuity: a concrete admissible execution (observed on the real SP: four packets put at t = 0 before the wake-up
-   token is processed, 128 B at 1024 bit/s = 1 s each), its departure order, its visits, and the drained final state *)
+   token is processed, 128 B at 1024 bit/s = 1 s each; flows 0 and 1 share class 10 (priority 1), flow 2 is class 11 (priority 2)), its departure order, its visits, and the drained final state *)
 Definition sp_ex_acts : list saction :=
   [SInit;
    SPut (mkp 0 1 0 128 0);
-   SPut (mkp 1 2 0 128 0);
-   SPut (mkp 2 3 1 128 0);
+   SPut (mkp 1 2 1 128 0);
+   SPut (mkp 2 3 2 128 0);
    SPut (mkp 3 4 0 128 0);
    SStoreCb None;
-   SStoreCb (Some 0%Z);
-   SStoreCb (Some 0%Z);
-   SStoreCb (Some 1%Z);
-   SStoreCb (Some 0%Z);
+   SStoreCb (Some 10%Z);
+   SStoreCb (Some 10%Z);
+   SStoreCb (Some 11%Z);
+   SStoreCb (Some 10%Z);
    SGetDone None;
-   SGetDone (Some 1%Z);
+   SGetDone (Some 11%Z);
    SChildInit;
    SAdvance (1 # 1);
    SChildTimer;
    SChildEnd;
-   SGetDone (Some 0%Z);
+   SGetDone (Some 10%Z);
    SChildInit;
    SAdvance (2 # 1);
    SChildTimer;
    SChildEnd;
-   SGetDone (Some 0%Z);
+   SGetDone (Some 10%Z);
    SChildInit;
    SAdvance (3 # 1);
    SChildTimer;
    SChildEnd;
-   SGetDone (Some 0%Z);
+   SGetDone (Some 10%Z);
    SChildInit;
    SAdvance (4 # 1);
    SChildTimer;
    SChildEnd].
 
 Example sp_example :
-  match sp_run (1024 # 1) [(0, 1); (1, 2)]%Z sp_ex_acts with
-  | Some (s, tr) => map uid (tr_fwds tr) = [2; 0; 1; 3]%nat /\ tr_visits tr = [(1, false); (0, false); (1, true); (1, false); (0, true); (1, false); (0, true); (1, false); (0, true)]%Z /\
+  match sp_run (1024 # 1) (cls_of [(0, 10); (1, 10); (2, 11)]%Z) [0; 1; 2]%Z [(10, 1); (11, 2)]%Z sp_ex_acts with
+  | Some (s, tr) => map uid (tr_fwds tr) = [2; 0; 1; 3]%nat /\ tr_visits tr = [(11, false); (10, false); (11, true); (11, false); (10, true); (11, false); (10, true); (11, false); (10, true)]%Z /\
                     map (fun e => fst (fst e)) (filter (fun e => negb (nilb (forwards (snd e)))) tr) = [1; 2; 3; 4] /\
-                    urgent (sp_cfg true (1024 # 1) [(0, 1); (1, 2)]%Z) s = false /\ mpc s = PTok
+                    urgent (sp_cfg true (1024 # 1) (cls_of [(0, 10); (1, 10); (2, 11)]%Z) [0; 1; 2]%Z [(10, 1); (11, 2)]%Z) s = false /\ mpc s = PTok
   | None => False
   end.
 Proof. vm_compute. repeat split; reflexivity. Qed.
